@@ -451,8 +451,15 @@ def r4_algebra(repo: Repo, rep):
     xt, tx = OrderedDict((("x", 2), ("t", 1))), OrderedDict((("t", 1), ("x", 2)))
     for label, sp_a, sp_b, ta, tb, want in (("same space, same data", xt, xt, "A", "A", True), ("same space, other data", xt, xt, "A", "B", False),
                                             ("variables in another order, same data", xt, tx, "A", "A", False), ("other space", xt, OrderedDict((("x", 2),)), "A", "A", False)):
-        fr = Evaluator(None, on_call_eq).run(fi.node.body, {"self": Opaque("self"), o: Opaque("other")},
-                                              attrs={"self.space": OrderedDict(sp_a), f"{o}.space": OrderedDict(sp_b), "self._t": Opaque(ta), f"{o}._t": Opaque(tb)})
+        def resolve_eq(e, ev, f):
+            if isinstance(e, ast.Call) and attr_chain(e.func) == "isinstance" and len(e.args) == 2 and dump(e.args[1]) == "Points" and dump(e.args[0]) in ("self", o):
+                return True
+            return None
+        fr = Evaluator(resolve_eq, on_call_eq).run(fi.node.body, {"self": Opaque("self"), o: Opaque("other")},
+                                                   attrs={"self.space": OrderedDict(sp_a), f"{o}.space": OrderedDict(sp_b), "self._t": Opaque(ta), f"{o}._t": Opaque(tb),
+                                                          "self.as_tensor": Opaque(ta), f"{o}.as_tensor": Opaque(tb),
+                                                          "self.variables": set(sp_a), f"{o}.variables": set(sp_b),
+                                                          "self.coordinates": {k: Opaque(f"{ta}.{k}") for k in sp_a}, f"{o}.coordinates": {k: Opaque(f"{tb}.{k}") for k in sp_b}})
         if fr.ret is UNKNOWN or not fr.returned:
             rep.undecided(R, fi.site(), fi.fq, f"__eq__ evaluable ({label})", repr(fr.ret)[:60])
             continue
